@@ -384,7 +384,7 @@ func c17Envelope(c *core.Ctx, r *core.RNG) {
 	}
 	kek := r.Bytes(kekLen)
 	key := key16(r)
-	label := []string{"lbl", "lbl", "010203", "0x010203", "C0002A", "as-kek/1", "a label with spaces", "ключ", "k", strings.Repeat("L", 200)}[r.Intn(10)]
+	label := []string{"lbl", "lbl", "010203", "0x010203", "C0002A", "000000", "000001", "0x000001", "00", "0", "null", "false", "as-kek/1", "a label with spaces", "ключ", "k", strings.Repeat("L", 200)}[r.Intn(17)]
 	if r.Chance(1, 5) {
 		label = ""
 	}
